@@ -50,3 +50,13 @@ CLAIMED["C14"] = (
  "Does not decide that deferral preserves the result on every descriptor kind (kernel) nor panicking callbacks.",
  COMMON_NOTE,
  "DESIGN.md section 5 C14")
+
+CLAIMED["C13"] = (
+ "resource-ownership analysis (acquire -> transfer/release on every CFG path, path-sensitive evaluation of error results and deferred closures, interprocedural owned-return / captured-parameter summaries), close-once guard recognition by dominance, must-pass-through for Register",
+ "Static necessary-condition analysis. Decides for every acquisition site (direct syscalls and summarised in-scope constructors, 30+ sites) that on each path "
+ "on which the acquisition succeeded the resource is returned with a nil/undetermined error, stored in the returned object or a long-lived owner, handed to "
+ "the user's callback, or released (also through deferred closures whose guards hold on that path); that the websocket handshake closes the connection on "
+ "failing paths; that each Close/Destroy is dominated by a once-guard and reaches close(2) on every path past it; that Register follows the success edge of every "
+ "registration and Deregister drops the slot only under Events == 0. Does not decide exhaustion at the k-th allocation beyond the enumerated error edges, nor GC behaviour.",
+ COMMON_NOTE,
+ "DESIGN.md section 5 C13")
